@@ -724,7 +724,7 @@ def check_input_data(
         warnings.warn(
             "PSF does not appear to be appropriately normalized; Sum(psf) is more than 0.1 away from 1."
         )
-    if jnp.all(data.shape < psf.shape):
+    if any(d < p for d, p in zip(data.shape, psf.shape)):
         raise KernelError("PSF pixel image size must be smaller than science image.")
     if mask is not None:
         mask = parse_mask(mask, data)
